@@ -137,3 +137,12 @@ package js
 //@   requires[S] l != nil && l.r != nil && bufInv(l.r)
 //@ func NewLexer
 //@   ensures[S]  result != nil && result.r == r && len(result.templateLevels) == 0
+
+// ---- C18: the child relation of the tree
+// Scope tables reference nodes that are not part of the tree.
+//@ walk exclude Scope Var.Link
+// ClassElement is a tagged union: exactly the first alternative that is set belongs to the tree.
+//@ walk union ClassElement: StaticBlock | Method | Field
+//@ walk inline ClassElement
+// ClassElementName is either a private name or a property name.
+//@ walk union ClassElementName: Private | PropertyName
